@@ -47,6 +47,9 @@ func VH_C12_named() {
 		want += "/" + tab
 	}
 	vx.Assert(got == want, "C12: router.URLPath substitutes the pairs and includes the optional segment only when asked")
+	// the same flat text split differently into pairs is a different request
+	vx.Assert(r.URLPath("user", "name", name+"/tab/"+tab) == "/u/"+name+"/tab/"+tab && r.URLPath("user", pairs...) == want,
+		"C12: router.URLPath depends on the pairs as given (no confusion between differently grouped pair lists), call after call")
 	vx.Assert(r.URLPath("combo", "id", name) == "/c/"+name, "C12: ComboRoute.Name names the route")
 	// routes without bind parameters: static, and static with an optional last segment
 	r.Get("/s/t", func() {}).Name("static")
